@@ -27,10 +27,10 @@ def op(draw):
     kind = draw(st.sampled_from(["eval", "eval", "eval", "scribble", "scribble", "clear", "regen", "reload"]))
     o = {"op": kind}
     if kind == "eval":
-        o["k"] = draw(st.integers(0, 2))
+        o["k"] = draw(st.sampled_from([0, 0, 0, 1, 2]))
     elif kind == "scribble":
-        o["r"] = draw(st.integers(0, 50))
-        o["t"] = draw(st.integers(0, 3))
+        o["r"] = draw(st.sampled_from([-1, -1, -1, 0, 1, 2, 3, 5, 8]))   # -1 = the most recent result
+        o["t"] = draw(st.sampled_from([0, 0, 0, 1, 2, 3]))
         o["value"] = draw(st.sampled_from([0.0, 123.25, -7.5]))
     elif kind == "regen":
         o["N"] = draw(st.sampled_from([1, 2]))
